@@ -5,7 +5,9 @@ PROP = dict(
         translator="blockers",
         model="coq/Models/Blocks.v (block pipeline with failure points, reviewed list, known defects) over coq/Generated/BlockerSurface.v "
               "(regenerated from the Go sources by tools/gotrans blockers on every run)",
-        coq_deps=["Base/Res.v", "Models/Blocks.v", "Generated/BlockerSurface.v", "Proofs/BlocksProofs.v", "Run/BlocksRun.v", "Props/C18.v"],
+        coq_deps=["Base/Res.v", "Base/Zdec.v", "Models/Blocks.v", "Models/StakerRewards.v", "Generated/BlockerSurface.v", "Proofs/BlocksProofs.v",
+                  "Proofs/StakerRewardsProofs.v", "Run/BlocksRun.v", "Run/StakerRewardsRun.v", "Props/C18.v"],
+        extra_gotests=[("TestZdec", "Zdec"), ("TestC18Rewards", "C18r")],
         rule="real app, real FinalizeBlock+Commit after every block; histories = ledger-driver user activity (amm swaps/joins/exits, stablestake, leveragelp, "
              "perpetual, third-party close requests) interleaved with environment faults: oracle outages of 1-10 blocks per denom subset, prices deleted, "
              "block-time gaps 5 min .. 366 days (band / five_minutes / ten_days epochs, several at once), odd balances (dust .. 1e13; denoms without asset "
@@ -14,12 +16,23 @@ PROP = dict(
              "portions, estaking provider portion / APRs, TotalBlocksPerYear 1 and 2^63, RewardsDataLifetime 1, stablestake/leveragelp EpochLength 0, "
              "oracle expiry 0, burner epoch, perpetual zero rates), Eden rewards and pool multipliers 0 / 1e6, time-based inflation, external incentives "
              "that end (also for missing pools), masterchef claims, Elys staking/unstaking, Eden vesting, dust positions, whole-balance dumps into a pool; "
+             "a staking/estaking op family (harness/c18_stake_test.go): SDK MsgDelegate / MsgUndelegate / MsgBeginRedelegate / MsgCancelUnbondingDelegation / "
+             "MsgCreateValidator / staking MsgUpdateParams against the genesis validator and validators created by users, commitment MsgCommitClaimedRewards / "
+             "MsgUncommitTokens / MsgStake / MsgUnstake of ueden and uedenb (the delegations to the two virtual validators), estaking MsgWithdrawReward / "
+             "MsgWithdrawElysStakingRewards / MsgWithdrawAllRewards and distribution withdrawals, amounts dust .. all+1 relative to balance / delegation / claimed / "
+             "committed, repeated partial undelegations in consecutive blocks, undelegate everything and stake again, blocks of 5 s .. 30 days (unbonding completion), "
+             "rewards from real time-based inflation and from a fixture that pays through the commitment keeper's bank wrapper; "
              "every failing transaction is checked to leave all stores (KV, transient, memory) unchanged; before each real block the same block is run "
              "blocker by blocker on a throw-away branch in the module manager's order (Elys blockers at keeper level) and Coq must predict the real "
              "result from those raw results through the generated table; distinct = op/result sequence of a history; non-trivial = some tx succeeded",
         trusted_base=["tools/gotrans blockers (Go AST, name-based call graph inside x/, depth 6): trusted for what it omits (interfaces into the SDK, panics inside "
                       "the SDK such as math.Int overflow, guards that live in callers); its order lists, its set of Elys blockers and its propagates flags are "
                       "cross-checked against the production module manager and against observed keeper-level results on every run",
+                      "hook multiplexers: only MultiCommitmentHooks is followed into its elements (estaking's commitment hooks); the closure stops at the methods of "
+                      "MultiAmmHooks / MultiPerpetualHooks / MultiLeverageLpHooks / MultiStableStakeHooks (tools/gotrans/blockers.go resolve(), receiver `mh[i]`)",
+                      "calls from a blocker's closure into the cosmos-sdk distribution keeper are LISTED (kind KExtPanic, count = explicit panic sites reachable inside "
+                      "x/distribution/keeper of the pinned SDK version, tools/gotrans/blockers_ext.go) but not analysed: that they do not fire (recorded starting stake <= "
+                      "current stake: hooks bracket every change and read stored amounts) is part of assumption RSdk, exercised only by the staking histories",
                       "cdc.MustMarshal/MustUnmarshal/address.MustLengthPrefix points (KCodec) are taken not to fire (the stores hold what the keepers wrote)"],
         modelled="a blocker = the sequence of its failure points, each fired or not by the environment (theorems quantify over all choices, all states and all "
                  "state transformers); SDK modules of the order lists are NOT modelled (taken to succeed): capability, staking, slashing, evidence, "
